@@ -1694,14 +1694,18 @@ func builtinInsertSorted(env *LEnv, args *LVal) *LVal {
 	if !sortErr.IsNil() {
 		return sortErr
 	}
+	// The predicate and the key function are arbitrary lisp and may have grown
+	// or shrunk the sequence in place.  The result is built from the cells that
+	// were searched (inCells), so it is sized from them too, not from whatever
+	// length the sequence has by now.
 	var v *LVal
 	var cells []*LVal
 	switch typespec.Str {
 	case "vector":
-		v = Array(QExpr([]*LVal{Int(1 + list.Len())}), nil)
+		v = Array(QExpr([]*LVal{Int(1 + len(inCells))}), nil)
 		cells = seqCells(v)
 	case "list":
-		cells = make([]*LVal, 1+list.Len())
+		cells = make([]*LVal, 1+len(inCells))
 		v = QExpr(cells)
 	default:
 		return env.Errorf("type specifier is invalid: %v", typespec)
